@@ -672,3 +672,100 @@ Theorem hermitian_output_diag i a b : i < n -> a < r i -> b < r i ->
   ent (two_symm_blocks_h azero aconj n bf) (off r i + a) (off r i + b) = aconj (ent (bf i i) b a).
 Proof. intros Hi Ha Hb. rewrite symm_h_entry by assumption. now rewrite Nat.ltb_irrefl. Qed.
 End SymOut.
+
+(* ------------------------------------------------------------------ *)
+(* four indices (base_four_symm.py): the nested concatenation           *)
+(* ------------------------------------------------------------------ *)
+Section FourConcat.
+Context {A : Type} (azero : A).
+Notation R4 := (list (list (list (list A)))).
+Notation get4' := (get4 azero).
+
+Definition shp1 (w : nat) (v : list A) : Prop := length v = w.
+Definition shp2 (w1 w2 : nat) (m : list (list A)) : Prop := length m = w1 /\ Forall (shp1 w2) m.
+Definition shp3 (w1 w2 w3 : nat) (m : list (list (list A))) : Prop := length m = w1 /\ Forall (shp2 w2 w3) m.
+Definition shp4 (w1 w2 w3 w4 : nat) (m : R4) : Prop := length m = w1 /\ Forall (shp3 w2 w3 w4) m.
+
+Lemma Forall_nth_lt {B} (Q : B -> Prop) (l : list B) a d : Forall Q l -> a < length l -> Q (nth a l d).
+Proof. intros H Ha. rewrite Forall_forall in H. apply H. now apply nth_In. Qed.
+
+Lemma mk_ne {B} n (f : nat -> B) : 0 < n -> mk n f <> [].
+Proof. destruct n; [lia|]. rewrite mk_cons. discriminate. Qed.
+
+Definition shape4 (n : nat) (r : nat -> nat) (cell : nat -> nat -> nat -> nat -> R4) : Prop :=
+  forall i j k l, i < n -> j < n -> k < n -> l < n -> shp4 (r i) (r j) (r k) (r l) (cell i j k l).
+
+Variables (n : nat) (r : nat -> nat) (cell : nat -> nat -> nat -> nat -> R4).
+Hypothesis HS : shape4 n r cell.
+
+(* entry of the nested concatenation: basis indices = block offset + position in the block *)
+Theorem four_concat_entry i j k l a b c e :
+  i < n -> j < n -> k < n -> l < n -> a < r i -> b < r j -> c < r k -> e < r l ->
+  get4' (four_concat n cell) (off r i + a) (off r j + b) (off r k + c) (off r l + e)
+  = get4' (cell i j k l) a b c e.
+Proof.
+  intros Hi Hj Hk Hl Ha Hb Hc He. unfold get4, four_concat.
+  assert (Hn : 0 < n) by lia.
+  (* shapes of the selected cells *)
+  assert (C1 : forall j' k' l', j' < n -> k' < n -> l' < n -> length (cell i j' k' l') = r i).
+  { intros. now destruct (HS i j' k' l') as [H' _]. }
+  assert (C2 : forall j' k' l', j' < n -> k' < n -> l' < n -> shp3 (r j') (r k') (r l') (nth a (cell i j' k' l') [])).
+  { intros. destruct (HS i j' k' l') as [HH1 HH2]; auto. apply Forall_nth_lt; [exact HH2|lia]. }
+  assert (C3 : forall k' l', k' < n -> l' < n -> shp2 (r k') (r l') (nth b (nth a (cell i j k' l') []) [])).
+  { intros. destruct (C2 j k' l') as [HH1 HH2]; auto. apply Forall_nth_lt; [exact HH2|lia]. }
+  assert (C4 : forall l', l' < n -> shp1 (r l') (nth c (nth b (nth a (cell i j k l') []) []) [])).
+  { intros. destruct (C3 k l') as [HH1 HH2]; auto. apply Forall_nth_lt; [exact HH2|lia]. }
+  (* lengths of the partial concatenations *)
+  assert (L3 : forall j' k', j' < n -> k' < n -> length (cat3 (mk n (fun l' => cell i j' k' l'))) = r i).
+  { intros. apply length_zipw; [now apply mk_ne|]. apply Forall_mk. intros; now apply C1. }
+  assert (L2 : forall j', j' < n -> length (cat2 (mk n (fun k' => cat3 (mk n (fun l' => cell i j' k' l'))))) = r i).
+  { intros. apply length_zipw; [now apply mk_ne|]. apply Forall_mk. intros; now apply L3. }
+  (* axis 0 *)
+  rewrite (nth_concat_mk n _ r [] i a); [| |exact Hi|exact Ha].
+  2:{ intros i' Hi'. apply length_zipw; [now apply mk_ne|]. apply Forall_mk. intros j' Hj'.
+      apply length_zipw; [now apply mk_ne|]. apply Forall_mk. intros k' Hk'.
+      apply length_zipw; [now apply mk_ne|]. apply Forall_mk. intros l' Hl'.
+      now destruct (HS i' j' k' l') as [H' _]. }
+  (* axis 1 *)
+  unfold cat1. rewrite (nth_zipw _ [] (r i)); [|now apply mk_ne| |exact Ha].
+  2:{ apply Forall_mk. intros; now apply L2. }
+  rewrite fold1_app, map_mk.
+  (* row a of the (j', .) slab *)
+  assert (E2 : forall j', j' < n ->
+    nth a (cat2 (mk n (fun k' => cat3 (mk n (fun l' => cell i j' k' l'))))) []
+    = zipw (@app (list A)) (mk n (fun k' => zipw (map2 (@app A)) (mk n (fun l' => nth a (cell i j' k' l') []))))).
+  { intros j' Hj'. unfold cat2. rewrite (nth_zipw _ [] (r i)); [|now apply mk_ne| |exact Ha].
+    2:{ apply Forall_mk. intros; now apply L3. }
+    rewrite fold1_map2, map_mk. f_equal. apply mk_ext. intros k' Hk'.
+    unfold cat3. rewrite (nth_zipw _ [] (r i)); [|now apply mk_ne| |exact Ha].
+    2:{ apply Forall_mk. intros; now apply C1. }
+    now rewrite fold1_map2, map_mk. }
+  assert (LZ2 : forall j' k', j' < n -> k' < n ->
+    length (zipw (map2 (@app A)) (mk n (fun l' => nth a (cell i j' k' l') []))) = r j').
+  { intros. apply length_zipw; [now apply mk_ne|]. apply Forall_mk. intros l' Hl'. now destruct (C2 j' k' l'). }
+  rewrite (nth_concat_mk n _ r [] j b); [| |exact Hj|exact Hb].
+  2:{ intros j' Hj'. rewrite E2 by exact Hj'. apply length_zipw; [now apply mk_ne|]. apply Forall_mk.
+      intros; now apply LZ2. }
+  rewrite E2 by exact Hj.
+  (* axis 2 *)
+  rewrite (nth_zipw _ [] (r j)); [|now apply mk_ne| |exact Hb].
+  2:{ apply Forall_mk. intros; now apply LZ2. }
+  rewrite fold1_app, map_mk.
+  assert (E3 : forall k', k' < n ->
+    nth b (zipw (map2 (@app A)) (mk n (fun l' => nth a (cell i j k' l') []))) []
+    = zipw (@app A) (mk n (fun l' => nth b (nth a (cell i j k' l') []) []))).
+  { intros k' Hk'. rewrite (nth_zipw _ [] (r j)); [|now apply mk_ne| |exact Hb].
+    2:{ apply Forall_mk. intros l' Hl'. now destruct (C2 j k' l'). }
+    now rewrite fold1_map2, map_mk. }
+  assert (LZ3 : forall k', k' < n -> length (zipw (@app A) (mk n (fun l' => nth b (nth a (cell i j k' l') []) []))) = r k').
+  { intros. apply length_zipw; [now apply mk_ne|]. apply Forall_mk. intros l' Hl'. now destruct (C3 k' l'). }
+  rewrite (nth_concat_mk n _ r [] k c); [| |exact Hk|exact Hc].
+  2:{ intros k' Hk'. rewrite E3 by exact Hk'. now apply LZ3. }
+  rewrite E3 by exact Hk.
+  (* axis 3 *)
+  rewrite (nth_zipw _ [] (r k)); [|now apply mk_ne| |exact Hc].
+  2:{ apply Forall_mk. intros l' Hl'. now destruct (C3 k l'). }
+  rewrite fold1_app, map_mk.
+  apply (nth_concat_mk n (fun l' => nth c (nth b (nth a (cell i j k l') []) []) []) r azero l e); auto.
+Qed.
+End FourConcat.
